@@ -11,8 +11,8 @@ CLAIMED = {
    text="Proved for any number of clients and every schedule: Bloom bits, Count-Min matrix and HyperLogLog registers after interleaved atomic updates equal the sequential result (generic commuting-updates theorem and its three instances). Refuted by vm_compute witnesses: cuckoo isFree/add/HINCRBY race (both succeed, one not findable, Length too large) and Top-K double ZPOPMIN. A scheduler built on a go-redis hook blocks each client before every command and follows generated schedules (and the Coq witnesses) on the real code against miniredis; results and the final state are diffed against the model's interleave for the same schedule, which also pins the command structure of each call.",
    note="Trusted as C08 plus the scheduler (goroutine identification, hook). Pipelines are one step on the wire and k SETBIT steps in the model (schedule expanded). Connection-level reordering below command granularity and handle-local fields shared between goroutines are not modelled.", ref="6 C16"),
  "C07": dict(cat="proof", tech="Go-AST translator regenerating lock facts from /repo on every run + Coq proof of mutual exclusion for well-locked methods, re-checked on the regenerated facts by vm_compute; race detector as failing-input search",
-   text="Generated/LockFacts.v is rewritten from the sources on every run; C07_facts_ok re-checks inside Coq that every exported method touching guarded state holds the lock (22 listed known findings excepted), C07_core_methods_locked pins the update/query methods; the Conc.v theorems prove that under that discipline at most one thread is inside a body and only the holder changes the state. A new unlocked access breaks the obligation; the check then runs that method against concurrent updates under -race for a replay.",
-   note="Trusted: the translator, sync.RWMutex as an atomic lock, Coq kernel. Not modelled: the Go memory model below mutex granularity, the scheduler. Full serialisability (trace = concatenation of bodies) is argued from the two proved consequences, not yet a single theorem.", ref="6 C07"),
+   text="Generated/LockFacts.v is rewritten from the sources on every run; C07_facts_ok re-checks inside Coq that every exported method touching guarded state holds the lock (7 listed two-object methods excepted), C07_core_methods_locked pins the update/query methods; the Conc.v theorems prove that under that discipline at most one thread is inside a body, only the holder changes the state, and (C07_serialisable) whenever the lock is free the state is the sequential execution of the acquired bodies in acquisition order, each once and whole, per-thread program order kept. A new unlocked access, or a lock taken after the first use of the receiver, breaks the obligation; the check then searches for a replay: the method against concurrent updates under -race, and an -atomic probe looking for an outcome no sequential order produces.",
+   note="Trusted: the translator, sync.RWMutex as an atomic lock, Coq kernel. Not modelled: the Go memory model below mutex granularity, the scheduler.", ref="6 C07"),
  "C15": dict(cat="other", tech="Coq proofs over the reals of the sizing identities (stdlib real axioms) + structural lemmas and an idealised refutation on the model + correspondence of the code's formulas with 200-bit reference values and the Coq probe formulas + statistical acceptance test",
    text="The property is statistical over the hash, so it is only partly a theorem: proved are the Bloom sizing identity (estimate = budget, rounding up is safe), the two Count-Min inequalities, that probe/row positions depend on their index and stay in range, and that cuckoo fingerprints are decimal digits (10^fpl values) which refutes the budget for an accepted configuration. The code's CalculateFilterSize/NumHashes/FingerPrintLength, CMS dimensions and the getIndex/getPositions/rank formulas are diffed against references. Empirical rates are tested with a one-sided 5-sigma bound (a test, not a proof).",
    note="Axioms: ClassicalDedekindReals.sig_forall_dec, sig_not_dec, functional_extensionality_dep, Classical_Prop.classic (standard library Reals). libm trusted for the implementation side.", ref="6 C15"),
@@ -22,32 +22,32 @@ CLAIMED = {
  "C09": dict(cat="proof", tech="Coq proof (attach rebuilds the handle from the metadata hash; queries/updates depend on immutable handle fields and the store only) for Count-Min + extracted-model correspondence with re-attachment for all five structures",
    text="Theorems for the Redis Count-Min sketch: the constructor's metadata lets attach rebuild exactly (rows, columns, key); Count and Update depend only on those fields and the store, so both handles agree on every later store. For all structures attach is part of the Redis model and the harness re-attaches at random points (also after imports under new keys), drives both handles and compares all answers after every step. Seven metadata defects repaired.",
    note="Trusted as C08. Cross-process sharing adds only that hashing is a fixed function (seeds are constants in the code); not exercised across OS processes yet.", ref="6 C09"),
- "C19": dict(cat="proof", tech="Coq proof (key-derivation injectivity, frame lemma per Redis command) + correspondence of 2-8 interleaved structures in one database against their models run alone",
-   text="Proved: decimal suffixes and row keys are injective for equal-length base keys; every primitive command changes only its own key. Each generated case runs 2-8 live structures of mixed kinds in one miniredis with interleaved histories (creation, re-attachment, import under new keys) and diffs every answer of every structure against that structure's model run alone on an empty store.",
+ "C19": dict(cat="proof", tech="Coq proof (key-derivation injectivity, frame lemma per Redis command, generic non-interference of operations local to disjoint key sets, instantiated for the Redis Count-Min sketch) + correspondence of 2-8 interleaved structures in one database against their models run alone",
+   text="Proved: decimal suffixes and row keys are injective for equal-length base keys; every primitive command changes only its own key; operations local to disjoint key sets give, in any interleaving, exactly the answers they give alone (C19_non_interference), and Update/Count of the Redis Count-Min sketch are local to its row keys. Each generated case runs 2-8 live structures of mixed kinds in one miniredis with interleaved histories (creation, re-attachment, import under new keys) and diffs every answer of every structure against that structure's model run alone on an empty store; a monitor checks that a structure's answers change only through operations on its own handles, and that constructor/import keys are fresh. Locality of the other four structures' calls is by correspondence (partial).",
    note="Trusted as C08; freshness of random base keys is assumed (52^16 space, time-seeded) and re-checked by the harness.", ref="6 C19"),
  "C10": dict(cat="proof", tech="Coq proof (import(export s) = s on parsed documents; UTF-8 sanitiser) + extracted-model correspondence on documents, Equals and paired queries",
    text="Export/Import are modelled on parsed JSON documents; theorems: import(export s)=s for Count-Min, HyperLogLog and Top-K on valid-UTF-8 elements; refutation for binary Top-K elements (known finding). Every structure's document, the import into dirty targets, Equals both ways and paired queries before/after further common updates are diffed against the code. Bloom/cuckoo documents are tied by correspondence only so far (partial). Two import defects were repaired.",
    note="Trusted as C03, plus encoding/json and base64 (the harness parses the implementation's bytes), floats opaque (bits<->text table from the implementation).", ref="6 C10"),
  "C11": dict(cat="proof", tech="Coq proof (decode(encode s ++ rest) = (s, |encode s|, rest), returned counts) + byte-exact extracted-model correspondence",
-   text="Byte-exact codec models; theorems for Count-Min, HyperLogLog, bucket+cuckoo, Top-K (full heap): exact round trip with arbitrary trailing bytes, WriteTo/ReadFrom counts = bytes written/consumed, back-to-back streams; Top-K partial heap refuted (known finding). The implementation's stream, both counts, consumed bytes, Equals and paired queries are diffed for all five structures incl. Bloom (whose bit-packing theorem is still missing: partial). Four count/format defects were repaired.",
+   text="Byte-exact codec models; theorems for Count-Min, HyperLogLog, bucket+cuckoo, Top-K (full heap) and Bloom incl. the bitset's bit packing: exact round trip with arbitrary trailing bytes, WriteTo/ReadFrom counts = bytes written/consumed, back-to-back streams; Top-K partial heap refuted (known finding). The implementation's stream, both counts, consumed bytes, Equals and paired queries are diffed for all five structures. Four count/format defects were repaired.",
    note="Trusted as C03, plus encoding/binary and the third-party bitset format.", ref="6 C11"),
  "C17": dict(cat="proof", tech="Coq proof (Equals sound/reflexive/total/symmetric per structure) + extracted-model correspondence on twins, one-parameter and one-cell differences",
    text="Theorems: Equals true implies equal parameters and payload (hence equal answers), reflexive, never panics on well-formed states of any dimensions; for Bloom, Count-Min, HyperLogLog, cuckoo, Top-K in memory after four repairs. The code's Equals is diffed both ways on twins, single-parameter tweaks, single mutated cells (first/middle/last via hooks) and unrelated pairs, with an answers-vs-Equals monitor.",
    note="Trusted as C03, plus the mutator hooks.", ref="6 C17"),
  "C18": dict(cat="proof", tech="Coq proof (every strict prefix of an image decodes to Err: extension lemma + exact round trip + no-panic) + exhaustive all-prefix correspondence per generated state",
-   text="Theorems for Count-Min, HyperLogLog, cuckoo, Top-K: for every well-formed state and every cut, ReadFrom returns an error (never success, never panic). For every generated state every strict prefix of the implementation's binary image and of its JSON export is fed to ReadFrom/Import and the outcome class is diffed (Bloom binary and all JSON prefixes by this sweep only: partial).",
+   text="Theorems for Count-Min, HyperLogLog, cuckoo, Top-K, Bloom: for every well-formed state and every cut, ReadFrom returns an error (never success, never panic). For every generated state every strict prefix of the implementation's binary image and of its JSON export is fed to ReadFrom/Import and the outcome class is diffed (JSON prefixes by this sweep only: partial).",
    note="Trusted as C11; json.Unmarshal's rejection of unbalanced text is exercised, not proved.", ref="6 C18"),
- "C04": dict(cat="proof", tech="Coq model of container/heap + Top-K with extracted-model correspondence on Values() and the raw heap array; Coq proof of the Values ordering (partial)",
-   text="A faithful executable model of container/heap (up/down/Push/Pop/Remove) and of Top-K is diffed against the code after every step on Values() and on the heap array (ties, re-insertions, narrow sketches, counts to 2^32); an exact-totals monitor checks every clause of the property on the code's outputs. Proved so far: Values() is a permutation of the heap sorted by (count desc, element asc). The heap-order theorems behind 'unreported <= minimum' are not yet proved (partial).",
-   note="Trusted as C03; container/heap is modelled, not verified.", ref="6 C04"),
- "C02": dict(cat="proof", tech="Coq proof (involution for power-of-two sizes, Remove/Lookup agreement) + refutation witnesses by vm_compute on the concrete murmur3 model + extracted-model correspondence",
-   text="The full no-false-negative statement is refuted on the faithful model for non-power-of-two bucket counts and for empty fingerprints (witness theorems, replayed on the code as known findings); the eviction-loop defect was repaired. Proved so far: alternate-bucket involution for 2^j sizes, Remove succeeds iff Lookup is true and otherwise changes nothing. Every Insert/Remove/Lookup outcome and the murmur3 model are diffed against the code on histories that saturate small filters with mirrored random draws; a live-multiset monitor searches for lost elements.",
-   note="Trusted as C01, plus math/rand mirrored through rand.Seed. The class-counting proof of the full statement for power-of-two sizes is not yet done (partial).", ref="6 C02"),
- "C13": dict(cat="proof", tech="Coq proof (length bookkeeping over the whole insert incl. eviction loop, by induction on retries) + extracted-model correspondence",
-   text="Proved for every hash/configuration/state/random choice: Length moves by +1 exactly on a returning Insert and not at all on any failed one; Remove returns true iff Lookup does and a failed Remove changes nothing. Empty-fingerprint elements refute the stored-entries accounting (witness, known finding). Full slot/counter state is diffed against the code after every step; monitors check Length = inserts - removes = stored entries = sum of counters, capacity, exactly-one removal, drain.",
-   note="Trusted as C02. The slot-count invariant (counter = non-empty slots) is so far checked by monitors and correspondence, not yet by a theorem (partial).", ref="6 C13"),
- "C14": dict(cat="proof", tech="Coq proof (exhaustion is signalled; failed inserts keep Length) + extracted-model correspondence with before/after state snapshots",
-   text="Proved: exhausting the retries never reports success; Length is unchanged by every failed insert. The undo-log theorem (non-destructive failure restores the exact state) is checked by full-state correspondence and a before/after monitor, not yet proved (partial). The destructive-displacement defect was repaired (fix: commit).",
+ "C04": dict(cat="proof", tech="Coq model of container/heap + Top-K with extracted-model correspondence on Values() and the raw heap array; Coq proof of the heap invariant of container/heap and of the Top-K invariant over all insert histories (in-memory variant)",
+   text="A faithful executable model of container/heap (up/down/Push/Pop/Remove) and of Top-K is diffed against the code after every step on Values() and on the heap array (ties, re-insertions, narrow sketches, counts to 2^32); an exact-totals monitor checks every clause of the property on the code's outputs. Proved for the in-memory variant, for every k>=1, sketch dimensions, position function and insert history: Push/Pop/Remove keep the heap order and Pop returns a minimum; Values has exactly min(k, distinct) entries without duplicates in (count desc, element asc) order; true total <= reported count <= current estimate <= total; every unreported element's true total <= every reported count. The Redis variant is tied by correspondence and the C08 pair machine (partial).",
+   note="Trusted as C03; container/heap is modelled (and its model verified), the Go library itself is not.", ref="6 C04"),
+ "C02": dict(cat="proof", tech="Coq proof (class counting: every live element is found after any history, for power-of-two bucket counts and non-empty fingerprints; multiset conservation of slots) + refutation witnesses by vm_compute on the concrete murmur3 model + extracted-model correspondence",
+   text="The full no-false-negative statement is refuted on the faithful model for non-power-of-two bucket counts and for empty fingerprints (witness theorems, replayed on the code as known findings); the eviction-loop defect was repaired. Proved: for bucket counts 2^j, elements with a non-empty fingerprint, non-destructive inserts and removal of live elements only, after EVERY history every element inserted more often than removed is found (C02_live_elements_found_pow2); a returning Insert stored the fingerprint and only moved the others (multiset of slots conserved); Remove succeeds iff Lookup is true. Every Insert/Remove/Lookup outcome and the murmur3 model are diffed against the code on histories that saturate small filters with mirrored random draws; a live-multiset monitor searches for lost elements.",
+   note="Trusted as C01, plus math/rand mirrored through rand.Seed. The Redis variant is tied by correspondence and monitors (partial).", ref="6 C02"),
+ "C13": dict(cat="proof", tech="Coq proof (slot-count invariant over all histories: Length = inserts - removes = stored entries, capacity, drain) + extracted-model correspondence",
+   text="Proved for every hash/configuration/state/random choice: Length moves by +1 exactly on a returning Insert and not at all on any failed one; Remove returns true iff Lookup does and a failed Remove changes nothing. For every configuration whose capacity fits 64 bits and every history on elements with a non-empty fingerprint: Length = returned inserts - successful removes = occupied slots, no bucket exceeds its capacity, a successful Remove takes exactly one entry, and Length 0 implies the filter is literally a new filter (C13_length_accounting). Empty-fingerprint elements refute the stored-entries accounting (witness, known finding). Full slot/counter state is diffed against the code after every step; monitors check Length = inserts - removes = stored entries = sum of counters, capacity, exactly-one removal, drain.",
+   note="Trusted as C02. The Redis variant is tied by correspondence and monitors (partial).", ref="6 C13"),
+ "C14": dict(cat="proof", tech="Coq proof (exhaustion is signalled; non-destructive failure restores the exact state; destructive failure displaces at most one entry; invariant kept) + extracted-model correspondence with before/after state snapshots",
+   text="Proved: exhausting the retries never reports success; Length is unchanged by every failed insert. For every state, element, hash and random choices: a non-destructive 'filter is full' leaves the whole state identical (C14_nondestructive_changes_nothing); a destructive one loses exactly one fingerprint from the multiset of slots (the new one or one stored entry), and Length stays equal to the stored entries. The Redis variant is tied by correspondence and a before/after monitor (partial). The destructive-displacement defect was repaired (fix: commit).",
    note="Trusted as C02.", ref="6 C14"),
  "C01": dict(cat="proof", tech="Coq proof (monotone bit-set invariant over arbitrary histories) + extracted-model correspondence",
    text="Theorem for every filter state, every probe-position function (hence every hash, size, numHashes) and every history: after Insert x every later Lookup x is true; fresh filters report everything absent; constructors clamp size/k to >=1. Tied to the code by differential runs of the extracted model (positions from the code's own getIndex) and a false-negative monitor.",
